@@ -41,7 +41,7 @@ MODES = ["kill", "ENOSPC", "EIO"]
 HEADER_SIZE = {1: 32, 2: 44, 3: 68, 4: 208}
 
 RULE = ("scenarios = ArchiveBuilder::build V1-V4 x {dest absent, dest present (older valid archive, different content)} x {5 small files, one 3-sector file} "
-        "+ MutableArchive::compact on V1 and V4 archives holding deleted entries; content seeded by VERIF_SEED. Per scenario a baseline under strace gives the window of N "
+        "+ MutableArchive::compact on V1 and V4 archives holding deleted entries and two multi-sector members (+ on V1/V2 with unflushed, content-neutral modifications pending in the session, so that the handle is dirty when a failed compact is dropped); content seeded by VERIF_SEED. Per scenario a baseline under strace gives the window of N "
         "state-changing system calls between the worker's two marker syscalls; one case = one process run with one fault point: (k, mode) with mode in {kill on entry, ENOSPC, EIO} "
         "at the k-th call of the window; a fault sequence (error at k, then kill / EIO at a later call of the resulting error path); or an RLIMIT_FSIZE byte limit x "
         "{SIGXFSZ ignored => short write then EFBIG, default => death at that byte}. Both tiers: every k x every mode x every scenario. quick: 16 size limits per scenario "
@@ -84,7 +84,7 @@ def all_scenarios():
         for st in ("absent", "present"):
             for kind in ("small", "big"):
                 out.append(f"build-v{v}-{st}-{kind}")
-    out += ["compact-v1", "compact-v4"]
+    out += ["compact-v1", "compact-v4", "compact-v1-pending", "compact-v2-pending"]
     return out
 
 
@@ -510,6 +510,9 @@ def fsize_limits(sc, tier):
 
 
 def fsize_points(sc, tier):
+    if sc["name"].endswith("-pending"):
+        # a file-size limit cannot be scoped to the window: it would already hit the session's set-up writes before compact
+        return []
     return [{"kind": "fsize", "limit": L, "mode": m} for L in fsize_limits(sc, tier) for m in ("fsize-ign", "fsize-kill")]
 
 
